@@ -129,7 +129,7 @@ def run(R, pid):
                         R.log(out[-1500:])
     R.prove("Packet")
     if not R.quick:
-        R.coqchk("Packet", ["Packet.Roundtrip", "Packet.Walker"] + (["Packet.SigProofs"] if pid == "C12" else []))
+        R.coqchk("Packet", ["Packet.Roundtrip", "Packet.Walker"] + (["Packet.SigProofs", "Packet.TamperName"] if pid == "C12" else []))
     b = build(R)
     if b is None:
         return R.finish()
